@@ -636,6 +636,9 @@ Proof.
   rewrite E. exact IH.
 Qed.
 
+Lemma run_S n s r : run (repeat (Run r) (S n)) s = run (repeat (Run r) n) (step s (Run r)).
+Proof. reflexivity. Qed.
+
 Lemma finish_from_F2 s r t v n :
   tpc (thr s r) = F2 t -> ver (thr s r) = v -> ext s v <> None -> sto s (KFinal v) = Some (By t) ->
   let s' := run (repeat (Run r) (2 + n)) s in
@@ -651,8 +654,7 @@ Proof.
   { unfold step; cbv zeta; cbn [ev_tid ev_mode]; rewrite T1. reflexivity. }
   set (s2 := mk s1 (del (sto s) (KTmp t)) (eset (ext s) v EFinal) ((v, EFinal) :: hist s) (win s) r (Done ROk)) in *.
   assert (T2 : tpc (thr s2 r) = Done ROk) by (unfold s2; rewrite mk_thr_same; reflexivity).
-  cbn zeta. change (2 + n)%nat with (S (S n)). cbn [repeat run fold_left]. rewrite E1, E2.
-  change (fold_left step (repeat (Run r) n) s2) with (run (repeat (Run r) n) s2). rewrite (run_done n s2 r ROk T2).
+  cbn zeta. change (2 + n)%nat with (S (S n)). rewrite run_S, E1, run_S, E2, (run_done n s2 r ROk T2).
   split; [exact T2|]. split.
   - unfold s2. cbn [sto mk]. rewrite del_other by discriminate. exact F.
   - unfold s2. cbn [ext mk]. apply eset_same.
@@ -684,7 +686,7 @@ Proof.
   { unfold step; cbv zeta; cbn [ev_tid ev_mode]; rewrite T2; cbn [tpc ver].
     change (sto s2) with (sto s). rewrite Hst, B2. reflexivity. }
   assert (Hext : ext s v <> None) by (rewrite E; discriminate).
-  cbn zeta. cbn [repeat run fold_left]. rewrite E1, E2, E3.
+  cbn zeta. change 6%nat with (S (S (S 3))). rewrite run_S, E1, run_S, E2, run_S, E3.
   destruct (big (thr s t)).
   - (* F1 (a big manifest): head(final) *)
     set (s3 := mk s2 st3 (ext s) (hist s) (win s) r (F1 t true)) in *.
@@ -693,13 +695,14 @@ Proof.
     assert (E4 : step s3 (Run r) = mk s3 st3 (ext s) (hist s) (win s) r (F2 t)).
     { unfold step; cbv zeta; cbn [ev_tid ev_mode]; rewrite T3; cbn [tpc ver].
       change (sto s3) with st3. rewrite F3v. reflexivity. }
-    rewrite E4.
+    change 3%nat with (S (2 + 0)). rewrite run_S, E4.
     apply (finish_from_F2 (mk s3 st3 (ext s) (hist s) (win s) r (F2 t)) r t v 0).
     + rewrite mk_thr_same. reflexivity.
     + rewrite mk_thr_same, T3. reflexivity.
     + exact Hext.
     + exact F3v.
-  - apply (finish_from_F2 (mk s2 st3 (ext s) (hist s) (win s) r (F2 t)) r t v 1).
+  - change 3%nat with (2 + 1)%nat.
+    apply (finish_from_F2 (mk s2 st3 (ext s) (hist s) (win s) r (F2 t)) r t v 1).
     + rewrite mk_thr_same. reflexivity.
     + rewrite mk_thr_same, T2. reflexivity.
     + exact Hext.
@@ -714,11 +717,9 @@ Proof.
   intros P E.
   assert (E1 : step s (Run r) = mk s (sto s) (ext s) (hist s) (win s) r (Done ROk)).
   { unfold step; cbv zeta; cbn [ev_tid ev_mode]; rewrite P, E. reflexivity. }
-  cbn zeta. cbn [repeat run fold_left]. rewrite E1.
-  set (s1 := mk s (sto s) (ext s) (hist s) (win s) r (Done ROk)).
+  set (s1 := mk s (sto s) (ext s) (hist s) (win s) r (Done ROk)) in *.
   assert (T1 : tpc (thr s1 r) = Done ROk) by (unfold s1; rewrite mk_thr_same; reflexivity).
-  change (fold_left step [Run r; Run r; Run r; Run r; Run r] s1) with (run (repeat (Run r) 5) s1).
-  rewrite (run_done 5 s1 r ROk T1). repeat split; [exact T1].
+  cbn zeta. change 6%nat with (S 5). rewrite run_S, E1, (run_done 5 s1 r ROk T1). repeat split; [exact T1].
 Qed.
 
 Lemma inv_repair s r v t :
